@@ -58,7 +58,7 @@ CHECKS = {
              "out of range} with delegated constructors followed; (X6) every loop has a counter/container/stream "
              "bound or an audited termination argument; (X2b) strchr membership excludes NUL; (X8) no "
              "fast-math/no-exceptions flags; (X7) interval analysis of fixed-buffer and alphabet indexes in the five "
-             "codecs. These hold for every input because they hold for every path. Added: (X3m) documented strong guarantee of NearestNeighbor::Initialize/Load; (X7c) with NaN and infinity tracked through the interval analysis, no floating value that may be NaN or infinite is converted to an integer or used to index in the codecs and UTMUPS; (X9) encoder buffers are completely filled for every precision; (X10) every accepted grid code decodes inside the domain; X4 sees through one-line boolean helpers and lambdas; X5 also offers latitude aliases modulo 360; (NAN2) no two-armed if that a NaN argument decides (every ordered comparison with NaN is false) sends the NaN into an arm that stores pure constants in the variables the other arm computes from that argument - with the argument's NaN followed through assignments and through locals passed by non-const reference (sincosd(lat, sphi, cphi)).",
+             "codecs. These hold for every input because they hold for every path. Added: (X3m) documented strong guarantee of NearestNeighbor::Initialize/Load; (X7c) with NaN and infinity tracked through the interval analysis, no floating value that may be NaN or infinite is converted to an integer or used to index in the codecs and UTMUPS; (X9) encoder buffers are completely filled for every precision; (X10) every accepted grid code decodes inside the domain; X4 sees through one-line boolean helpers and lambdas; X5 also offers latitude aliases modulo 360; (X12) every character of an accepted grid code is examined on every accepting path; (NAN2) no two-armed if that a NaN argument decides (every ordered comparison with NaN is false) sends the NaN into an arm that stores pure constants in the variables the other arm computes from that argument - with the argument's NaN followed through assignments and through locals passed by non-const reference (sincosd(lat, sphi, cphi)).",
         note="NOT decided: general memory safety, signed overflow, propagation of NaN to the outputs beyond the NAN2 clause (a NaN lost in min/max, in a table lookup or in a value computed without the argument is not seen), std-library "
              "logic errors other than X2b. Assumes A-ELLIPTIC-ARGS, A-SINGLETON-NOTHROW; bad_alloc is outside the "
              "contract. One known finding (Utility::readarray partial write).",
@@ -97,8 +97,8 @@ CHECKS = {
              "their consumers (T3), and (X7) an interval analysis over the encoders - ranges established by the throwing "
              "guards, clamps and the documented range of AngNormalize - proves every write into the fixed char buffers "
              "and every decided alphabet index inside its array; an index whose attained range leaves the alphabet is "
-             "a violation (this found Georef::Forward(lat, 180) emitting the terminating NUL). Added: (W1) output totality; (X9) buffer fill completeness of the four encoders for every precision and path; (X10) for every string length and accepting path of GARS/Georef/Geohash::Reverse the decoded position lies in -90 <= lat < 90, -180 <= lon < 180 (path-wise range interpretation, one full-range variable per looked-up character); (X7c) no possibly NaN/infinite value is converted to an integer (this found the crash for lon = +-inf). Also (X7r) the indexes that need a relation between two variables are proved by a linear-relational path analysis (29 sites of GARS/Georef/OSGB), and (X11) a numeric field the encoder emits digit by digit takes exactly the values the decoder accepts at those character positions.",
-        note="Containing-cell arithmetic, prefix property and full consumption of the input are NOT decided. X7 leaves "
+             "a violation (this found Georef::Forward(lat, 180) emitting the terminating NUL). Added: (W1) output totality; (X9) buffer fill completeness of the four encoders for every precision and path; (X10) for every string length and accepting path of GARS/Georef/Geohash::Reverse the decoded position lies in -90 <= lat < 90, -180 <= lon < 180 (path-wise range interpretation, one full-range variable per looked-up character); (X7c) no possibly NaN/infinite value is converted to an integer (this found the crash for lon = +-inf). Also (X7r) the indexes that need a relation between two variables are proved by a linear-relational path analysis (29 sites of GARS/Georef/OSGB), and (X11) a numeric field the encoder emits digit by digit takes exactly the values the decoder accepts at those character positions. (X12) on every accepting path of GARS/Georef/Geohash::Reverse, for every string length, every character of the string has been looked up in an alphabet or covered by a find_first_not_of(alphabet, pos) == npos test (Geohash: up to the documented maxlen_, read from the tree) - this is the clause that Georef::Reverse(\"GJPJ5\") broke on the unchanged tree (fixed in 2a203ce).",
+        note="Containing-cell arithmetic and the prefix property are NOT decided; of full consumption of the input only that every character is examined on every accepting path (X12), not that each is judged correctly. X7 leaves "
              "indexes that need relational reasoning undecided (listed in the evidence), never guessed.",
         technique="CFG typestate (commit-last) + Kleene NaN evaluation + interval analysis of buffer/alphabet indexes + partial evaluation of buffer fills + path-wise range interpretation of decoders (NaN/infinity tracked)",
         ref="3.4, 4 (C18)"),
